@@ -13,6 +13,9 @@ type VerifConsumerSnap struct {
 	Qos    [][4]uint64 `json:"qos"`
 }
 
+// VerifID returns the consumer's process-wide id (verification snapshot).
+func (consumer *Consumer) VerifID() uint64 { return consumer.ID }
+
 // VerifSnap returns the verification snapshot of a consumer.
 func (consumer *Consumer) VerifSnap() VerifConsumerSnap {
 	consumer.statusLock.RLock()
